@@ -102,7 +102,8 @@ Inductive xerr :=
 | XAbsLink        (* absolute link target: not modelled (needs the absolute base) *)
 | XWriteThrough   (* (unused since writeFile replaces an existing symlink instead of writing through it) *)
 | XDigest         (* content digest mismatch *)
-| XCodec.         (* gzip / tar decoding failed *)
+| XCodec          (* gzip / tar decoding failed *)
+| XPerm.          (* EACCES: an unprivileged owner lacks write/search permission on the directory *)
 
 Inductive res (A : Type) := Ok (a : A) | Err (e : xerr).
 Arguments Ok {A} a.
@@ -350,6 +351,74 @@ Definition extract (pre : path) (umask : N) (preserve : bool) (es : list entry) 
   | Ok f => Ok (finish_dirs pre preserve es f)
   | Err x => Err x
   end.
+
+(* ---------- an unprivileged user: the kernel's permission check on creating an entry ----------
+   Every object of the restored directory belongs to the user who unpacks.  Root passes every
+   check; an unprivileged owner needs write and search permission (0300) on the directory in
+   which an entry is created, replaced or removed.  (Truncating an existing file needs its own
+   write bit and chmod needs search permission on the ancestors: not modelled, see props.) *)
+Definition owner_wx : N := 192.
+Definition has_wx (m : N) : bool := N.land m owner_wx =? owner_wx.
+
+(* the nearest existing ancestor-or-self of the reversed path decides *)
+Fixpoint ancestor_wx (f : fs) (rp : path) : bool :=
+  match fs_lookup f (rev rp) with
+  | Some (NDir m) => has_wx m
+  | Some _ => true                 (* not a directory: another error comes first *)
+  | None => match rp with
+            | [] => true
+            | _ :: rparent => ancestor_wx f rparent
+            end
+  end.
+
+Definition perm_ok (priv : bool) (pre : path) (f : fs) (e : entry) : bool :=
+  priv ||
+  match strip_prefix pre (e_name e) with
+  | None => true
+  | Some rel =>
+      match e_kind e, fs_lookup f rel with
+      | EDir, Some (NDir _) => true             (* exists: nothing is created *)
+      | EReg _, Some (NFile _ _) => true        (* truncated in place *)
+      | EDir, _ => ancestor_wx f (rev rel)      (* MkdirAll: the first missing element is created in the nearest existing one *)
+      | _, _ => ancestor_wx f (rev (parent rel))
+      end
+  end.
+
+Definition extract_entry_p (priv : bool) (pre : path) (umask : N) (preserve : bool) (f : fs) (e : entry) : res fs :=
+  match extract_entry pre umask preserve f e with
+  | Ok f' => if perm_ok priv pre f e then Ok f' else Err XPerm
+  | Err x => Err x
+  end.
+
+Fixpoint extract_list_p (priv : bool) (pre : path) (umask : N) (preserve : bool) (f : fs) (es : list entry) : res fs :=
+  match es with
+  | [] => Ok f
+  | e :: es' =>
+      match extract_entry_p priv pre umask preserve f e with
+      | Ok f' => extract_list_p priv pre umask preserve f' es'
+      | Err x => Err x
+      end
+  end.
+
+Definition extract_p (priv : bool) (pre : path) (umask : N) (preserve : bool) (es : list entry) : res fs :=
+  match extract_list_p priv pre umask preserve (fs_init umask) es with
+  | Ok f => Ok (finish_dirs pre preserve es f)
+  | Err x => Err x
+  end.
+
+(* the same check on the code before restoreDirModes (directories created with their recorded mode) *)
+Fixpoint extract_list_prefix_p (priv : bool) (pre : path) (umask : N) (preserve : bool) (f : fs) (es : list entry) : res fs :=
+  match es with
+  | [] => Ok f
+  | e :: es' =>
+      match extract_entry_prefix pre umask preserve f e with
+      | Ok f' => if perm_ok priv pre f e then extract_list_prefix_p priv pre umask preserve f' es' else Err XPerm
+      | Err x => Err x
+      end
+  end.
+
+Definition extract_prefix_p (priv : bool) (pre : path) (umask : N) (preserve : bool) (es : list entry) : res fs :=
+  extract_list_prefix_p priv pre umask preserve (fs_init umask) es.
 
 (* what the property expects to find at a path of the restored directory *)
 Fixpoint find_child (n : name) (ch : list (name * tree)) : option tree :=
